@@ -33,6 +33,11 @@ def templates(rng):
         "module M\ninterface I {\n    op(tag(2) /* 日本語 ünï */ p:\n        string, // ü😀\n       q: stream /* é */\n int32, r: bool)\n}\n",
         "module M\n/// @returns: déjà vu ✓ %s\n///   continued 日本\n/// @param nosuch: ü\n///\tmore\nstruct S {}\n" % p.replace("\n", " ").replace("\\", "/"),
         "module M\r\nstruct S {\r\n    tag(1) // é ü\r\n    a:\r\n    int32,\r\n}\r\n",
+        # notes that have no location of their own
+        "module M\ninterface I { [compress(Foo)] op() }\n",
+        "module M\n[allow(NoSuchLint, %s)] struct S {}\n" % ("X" + "".join(c for c in p if c.isalnum())),
+        "module M\ninterface I {\n    /// @returns value: %s\n    op() -> int32\n}\n" % p.replace("\n", " ").replace("\\", "/"),
+        "module M\nenum E { A, B }\nstruct S { d: Dictionary<E, bool> }\ntypealias T = T2\ntypealias T2 = T\n",
         # doc comment lints (span, scope, several at once)
         "module M\n/// {@link Nope} and {@link Nope2}\n/// @param x: y\n/// @foo\nstruct S {}\n",
         # cycle (notes), syntax error, empty file, CRLF
@@ -207,4 +212,34 @@ def run(ck):
             ck.violation("binary", "totals-differ", case, repr(wt if fmt == "human" else ""), repr(plain_out[:200]))
         if r["exit"] != ("1" if te else "0"):
             ck.violation("binary", "exit-status", case, "1" if te else "0", r["exit"])
+    # what a generator says in its reply is printed on the standard output, one message per line in order, whatever its level; the diagnostic stream stays what the emitter writes
+    gsample = [i for i in range(len(cases)) if len({nm for nm, _ in cases[i][2]}) == len(cases[i][2]) and len(o[i].split(" || ")) == 3 and o[i].split(" || ")[2].split(" ")[2] == "0" and not any("\x1b" in t for _, t in cases[i][2])][:(60 if ck.tier == "quick" else 600)]
+    glines, gmeta = [], []
+    for i in gsample:
+        fmt, opts, files = cases[i]
+        msgs = [(rng.randrange(3), rng.choice(["boom", "note to self", "ünï", "two words", "x"]) + str(k), rng.choice([None, "gen.src"])) for k in range(rng.choice([1, 2, 3]))]
+        extra = ["--diagnostic-format", fmt, "--disable-color"] + [x for a in (opts.split(",") if opts != "-" else []) for x in ("-A", a[2:])]
+        glines.append(dc.run_line(False, extra, [("gen-reply-0", None, dc.enc_reply([], msgs))], [("S", nm, t) for nm, t in files]))
+        gmeta.append((i, msgs))
+    og = dc.run_all(glines, chunk=10)
+    ck.stream("generator-diagnostics", description="error-free programs (clean or with warnings) and a generator whose well-formed reply carries 1-3 diagnostics of every level, with and without a source: "
+              "the diagnostic stream is byte for byte what the emitter writes for the compiler's own diagnostics (JSON or human), the generator's messages are on the standard output, one per line, in order, before the totals")
+    for (i, msgs), line, oo in zip(gmeta, glines, og):
+        fmt, opts, files = cases[i]
+        ck.count("generator-diagnostics", line, kind=fmt)
+        r = dc.parse_run(oo)
+        if r is None:
+            ck.violation("generator-diagnostics", "crash", line[:300], "a run", oo[:200])
+            continue
+        parts = o[i].split(" || ")
+        want = bytes.fromhex(parts[0]) if parts[0] != "-" else b""
+        tw = int(parts[2].split(" ")[1])
+        case = "--diagnostic-format %s %s; the generator says %s\n%s" % (fmt, opts, msgs, "\n--\n".join("[%s]\n%s" % (nm, t) for nm, t in files))
+        if r["stderr"] != want:
+            ck.violation("generator-diagnostics", "diagnostic-stream-differs", case, want.decode("utf-8", "replace")[:400], r["stderr"].decode("utf-8", "replace")[:400])
+        wt = "".join(m_ + "\n" for _, m_, _ in msgs) + ((("Warnings: Compilation generated %d warning(s)\n" % tw) if tw else "") if fmt == "human" else "")
+        if r["stdout"].decode("utf-8", "replace") != wt:
+            ck.violation("generator-diagnostics", "standard-output-differs", case, repr(wt), repr(r["stdout"][:300]))
+        if r["exit"] != "0":
+            ck.violation("generator-diagnostics", "exit-status", case, "0", r["exit"])
     ck.partial.append("which escape sequences the console library uses is its business; a generator's own stderr text is copied to slicec's stderr in front of the JSON lines (noted under C18)")
